@@ -13,6 +13,8 @@ enum Ver {
     Cur,
     CurP1,
     Big,
+    /// the largest version a client can present (i32::MAX); a leaf letter: nothing can grow past it
+    Max,
 }
 
 #[derive(Clone, Debug)]
@@ -36,7 +38,7 @@ impl C02 {
         for k in keys {
             l.push(L::Set { key: k, val: "1" });
             l.push(L::Set { key: k, val: "x" });
-            for ver in [Ver::Minus1, Ver::CurM1, Ver::Cur, Ver::CurP1, Ver::Big] {
+            for ver in [Ver::Minus1, Ver::CurM1, Ver::Cur, Ver::CurP1, Ver::Big, Ver::Max] {
                 l.push(L::SetSafe { key: k, ver });
             }
             l.push(L::Inc { key: k, by: 1 });
@@ -70,6 +72,10 @@ impl SeqModel for C02 {
     type World = KvWorld;
     fn letters(&self) -> Vec<String> {
         self.letters.iter().map(|l| format!("{:?}", l)).collect()
+    }
+    fn is_leaf(&self, letter: usize, _depth: usize) -> bool {
+        // after a write at i32::MAX no version can be higher: the history is not continued
+        matches!(self.letters[letter], L::SetSafe { ver: Ver::Max, .. })
     }
     fn new_world(&self) -> KvWorld {
         KvWorld::new("c02", "none")
@@ -124,6 +130,7 @@ impl SeqModel for C02 {
                             Ver::Cur => before,
                             Ver::CurP1 => before + 1,
                             Ver::Big => 1000,
+                            Ver::Max => i32::MAX,
                         };
                         let exp = if vnum == -1 {
                             Some(true) // -1 is the "unversioned" sentinel: a plain write
